@@ -18,6 +18,7 @@ func init() {
 			"data block (frame length minus the 7- or 9-byte header), leaves the remainder starting at the next frame, reports profile/index/channels from their ISO bit positions and stays in bounds; " +
 			"C11.asc - the 2-byte AudioSpecificConfig is 5+4+4 bits both ways and the accepted set is exactly object types {1,2,3,5,29} x index 1..12 x channels 1..7 (everything else is an error); " +
 			"C11.tables - object<->profile maps and the sampling-frequency table fold to the ISO values for every defined index. " +
+			"C11.alias - no []byte result aliases storage that outlives the call (receiver fields, package variables, pooled buffers): an item handed out earlier stays what it was. " +
 			"Not decided: multi-frame streams of arbitrary payloads (follows by induction from 'left' being exact per frame); payload bytes as data.",
 		Assume: []string{"layout tables transcribed from ISO/IEC 13818-7 6.2 and 14496-3 1.6.2.1; don't-care bits where the standard leaves the value to the writer (id, private, original/home, copyright, buffer fullness)"},
 		Run:    runC11,
@@ -48,6 +49,7 @@ func recvOrRet(r abs.Result, field string) (abs.Value, bool) {
 }
 
 func runC11(c *Ctx) {
+	checkOwnsBytes(c, "C11.alias", "aac")
 	checkFreshResult(c, "C11.enc", "aac", "(*ADTSImpl).Encode", 0)
 	R := c.R
 	R.Require("C11.enc", 5)
